@@ -389,7 +389,12 @@ def run(chk):
     chk.rule = ('(i) wiring: every kernel call of flux / v-parallel (with and without gradient) / poloidal / density / mode solve on every rank of forced process '
                 'grids, recorded as global indices; (ii) initial distribution in the three starting layouts, each operator on random fields, and 2 full driver steps, '
                 'on every listed process grid vs the serial run, rotational transform 0 and 0.8, seeded-random arrival order. non-trivial = more than one rank')
-    chk.proof_side(build=not getattr(chk, 'no_build', False))
+    # theorems about the loop REGENERATED from fullSimulation.py: run the translator first
+    import subprocess as _sp
+    _tr = _sp.run(['/venv/bin/python', str(common.VERIF / 'harness' / 'translate_driver.py'), '--repo', str(common.REPO)], capture_output=True, text=True)
+    if _tr.returncode != 0:
+        chk.proof_broken.append({'theorem': 'translator (harness/translate_driver.py) refused the source of the time loop', 'log': (_tr.stdout + _tr.stderr)[-800:]})
+    chk.proof_side(build=not getattr(chk, 'no_build', False), extra_props=('C15Extra',))
     stats = {'bit_identical': 0, 'compared': 0}
     drv = common.LeanDriver('C05.lean')
     try:
